@@ -400,7 +400,7 @@ let handle (case : string) (out : string) : unit =
   (match pviolated with
    | [] -> ()
    | (step, r) :: _ ->
-       let name = (match r with P01_sync_pause_exceeded -> "sync_pause_exceeded") in
+       let name = (match r with P01_reaction_after_slot_time -> "reaction_after_slot_time") in
        count ("violated:" ^ pid_name (prule_prop r) ^ ":" ^ name);
        report_fail (pid_name (prule_prop r)) name case
          (Printf.sprintf "event %d: %s" (int_of_nat step) (try List.nth (String.split_on_char ';' out) (int_of_nat step) with _ -> "?")));
